@@ -21,6 +21,7 @@ Json Workload::ToJson() const {
   j["topo"] = topo;
   j["n"] = n;
   j["gseed"] = static_cast<unsigned long long>(gseed);
+  j["jit"] = jit;
   Json a = Json::Array();
   for (const AttDesc &d : atts) {
     Json e = Json::Array();
@@ -61,6 +62,7 @@ Workload Workload::FromJson(const Json &j) {
   w.topo = static_cast<int>(j.get("topo").Int());
   w.n = static_cast<int>(j.get("n").Int(8));
   w.gseed = j.get("gseed").U64(1);
+  w.jit = static_cast<int>(j.get("jit").Int(1));
   const Json &a = j.get("atts");
   for (size_t i = 0; i < a.size(); ++i) {
     AttDesc d;
@@ -139,6 +141,7 @@ Workload GenerateWorkload(Rng rng, int size_class, int force_kind) {
   Workload w;
   Rng r = rng.Fork("workload");
   w.gseed = r.Next() >> 2;
+  w.jit = r.Fork("jit").Chance(1, 4) ? 0 : 1;
   uint64_t k = r.Below(20);
   w.kind = k < 12 ? 0 : (k < 19 ? 1 : 2);
   if (force_kind >= 0) w.kind = force_kind;
@@ -177,8 +180,9 @@ Workload GenerateWorkload(Rng rng, int size_class, int force_kind) {
     w.split = static_cast<int>(r.Range(-1, 1));
     w.compress_conn = static_cast<int>(r.Range(-1, 1));
   } else if (w.kind == 1) {
-    w.topo = static_cast<int>(r.Below(3));
+    w.topo = static_cast<int>(r.Below(5));
     int extra = static_cast<int>(r.Below(3));
+    if (w.topo >= 3 && r.Chance(1, 2)) extra = 0;
     static const int types[] = {GeometryAttribute::NORMAL,
                                 GeometryAttribute::COLOR,
                                 GeometryAttribute::GENERIC};
@@ -274,7 +278,10 @@ void BuildTopology(const Workload &w, Rng *r, std::vector<float> *pos,
     pos->push_back(z);
     return static_cast<int>(pos->size() / 3 - 1);
   };
-  auto jit = [&]() { return static_cast<float>(r->Unit() * 0.2 - 0.1); };
+  auto jit = [&]() {
+    const float v = static_cast<float>(r->Unit() * 0.2 - 0.1);
+    return w.jit ? v : 0.f;
+  };
   auto grid = [&](int faces, float ox, bool wrap_u, bool wrap_v) {
     int quads = (faces + 1) / 2;
     int gw = static_cast<int>(std::sqrt(static_cast<double>(quads)));
@@ -662,6 +669,16 @@ std::unique_ptr<draco::PointCloud> BuildCloud(const Workload &w) {
     for (int c = 0; c < 3; ++c) {
       double u = (splitmix64(&s) >> 11) * (1.0 / 9007199254740992.0);
       p[c] = static_cast<float>(w.topo == 2 ? std::floor(u * 8) : u * 100 - 50);
+    }
+    if (w.topo == 3) {
+      // Lattice in raster order: compresses to a fraction of a byte per point.
+      p[0] = static_cast<float>(i % 32);
+      p[1] = static_cast<float>(i / 32);
+      p[2] = 0.f;
+    } else if (w.topo == 4) {
+      p[0] = 1.f;
+      p[1] = 2.f;
+      p[2] = 3.f;  // all points identical
     }
     for (size_t a = 0; a < w.atts.size(); ++a) {
       uint8_t val[16];
